@@ -108,7 +108,11 @@ func sortedLines(s string) string {
 }
 
 func interpSched(r *Rand, est int) Sched {
-	return Sched{Strategy: pickStrategy(r), EstLen: est, MaxSteps: 400000}
+	sc := Sched{Strategy: pickStrategy(r), EstLen: est, MaxSteps: 400000}
+	// delay bounding (F-stall of a goroutine that has just been started): murex cancels and cleans up in
+	// `go` statements, whose effect may arrive late
+	sc.DelayProb = []float64{0, 0, 0.03, 0.1}[r.Intn(4)]
+	return sc
 }
 
 // fidsOf lists FIDs currently registered (C28 cross-check used by several harnesses)
